@@ -656,6 +656,52 @@ theorem setReqGrad_exact (v : Bool) (w : World) (m : Nat) :
   obtain ⟨h1, h2⟩ := foldl_updPar (fun P => { P with reqGrad := v }) (parameters w (fuelOf w) m) w (parameters_nodup w _ m)
   exact ⟨h1, fun k => by rw [setReqGrad, h2 k]⟩
 
+/-! ### containers built from a collection of the caller (an `OrderedDict` / a list that lives on in the caller's hands) -/
+
+/-- assignment / registration on module `m` leaves every other module as it is -/
+theorem setAttr_frame (w : World) (m k : Nat) (name : String) (v : Val) (h : k ≠ m) :
+    (setAttr w m name v).mods[k]? = w.mods[k]? := by
+  cases v <;> simp [setAttr, regMod, regPar, updMod_getElem?, h]
+
+theorem regMod_frame (w : World) (m k : Nat) (name : String) (j : Nat) (h : k ≠ m) :
+    (regMod w m name j).mods[k]? = w.mods[k]? := by
+  simp [regMod, updMod_getElem?, h]
+
+/-- **A container depends on its own history only**: whatever is assigned to ANOTHER module — e.g. to a second container that was
+    built from the same ordered dict — leaves its members, their order, its parameters and its mode as they are. -/
+theorem applyOrder_setAttr_frame (w : World) (m k : Nat) (name : String) (v : Val) (h : k ≠ m) :
+    applyOrder (setAttr w m name v) k = applyOrder w k := by
+  simp [applyOrder, setAttr_frame w m k name v h]
+
+theorem applyOrder_regMod_frame (w : World) (m k : Nat) (name : String) (j : Nat) (h : k ≠ m) :
+    applyOrder (regMod w m name j) k = applyOrder w k := by
+  simp [applyOrder, regMod_frame w m k name j h]
+
+/-- **No operation on a collection of the caller reaches a module**: adding, removing, replacing, reordering or clearing entries of
+    the dict / list changes that object only. -/
+theorem updColl_frame (cw : CWorld) (i : Nat) (f : Coll → Coll) : (updColl cw i f).w = cw.w := rfl
+
+/-- **The constructor copies**: `Sequential(d)` is `sequentialDict` on the entries `d` holds at that moment, `Sequential(*l)` is
+    `sequential` on the members of `l`; the collection itself is left as it is. -/
+theorem seqFrom_spec (cw : CWorld) (i : Nat) (c : Coll) (h : cw.colls[i]? = some c) :
+    (seqFrom cw i).1.colls = cw.colls ∧
+    ((seqFrom cw i).1.w, (seqFrom cw i).2) =
+      if c.isDict then ((sequentialDict cw.w c.items).1, some (sequentialDict cw.w c.items).2)
+      else ((sequential cw.w (c.items.map (·.2))).1, some (sequential cw.w (c.items.map (·.2))).2) := by
+  simp only [seqFrom, h]
+  cases c.isDict <;> simp
+
+/-- … so a container built from a list applies the members the list held AT CONSTRUCTION, in that order, whatever the caller does
+    to the list afterwards -/
+theorem seqFrom_list_order_stable (cw : CWorld) (i : Nat) (c : Coll) (h : cw.colls[i]? = some c) (hd : c.isDict = false)
+    (j : Nat) (f : Coll → Coll) (m : Nat) (hm : (seqFrom cw i).2 = some m) :
+    applyOrder (updColl (seqFrom cw i).1 j f).w m = c.items.map (·.2) := by
+  rw [updColl_frame]
+  simp only [seqFrom, h, hd] at hm ⊢
+  simp only [Bool.false_eq_true, if_false, Option.some.injEq] at hm ⊢
+  subst hm
+  exact sequential_order cw.w _
+
 /-! ### Non-vacuity -/
 def w0 : World :=
   let (w, m0) := newMod World.empty
@@ -677,5 +723,18 @@ example : (w12.mods[2]?.map (fun M => M.subs.map (·.1))) = some ["0", "1", "2",
 example : applyOrder w12 2 = [0, 1, 0, 1, 0, 1, 0, 1, 0, 1, 0, 1] := by decide
 example : applyOrder (setAttr w12 2 "3" (.mod 0)) 2 = [0, 1, 0, 0, 1, 0, 1, 0, 1, 0, 1, 0] := by decide
 example : applyOrder (regMod w12 2 "3" 0) 2 = [0, 1, 0, 0, 0, 1, 0, 1, 0, 1, 0, 1] := by decide
+
+/-- two containers built from ONE ordered dict of the caller, then an attribute of the second one replaced and the dict edited: the
+    first container still applies what it was given -/
+def cw2 : CWorld :=
+  let w := (newMod (newMod (newMod World.empty).1).1).1          -- m0 m1 m2
+  let (cw, d) := newColl { w := w } ⟨true, [("fc", 0), ("act", 1), ("out", 0)]⟩
+  let cw := (seqFrom cw d).1                                      -- m3
+  let cw := (seqFrom cw d).1                                      -- m4
+  let cw := { cw with w := setAttr cw.w 4 "out" (.mod 2) }
+  updColl cw d (fun c => (c.put "extra" 2).del "fc")
+example : applyOrder cw2.w 3 = [0, 1, 0] := by decide
+example : applyOrder cw2.w 4 = [0, 1, 2] := by decide
+example : cw2.colls.map (·.items) = [[("act", 1), ("out", 0), ("extra", 2)]] := by decide
 
 end Props.C12
